@@ -566,7 +566,12 @@ def Mon.step (m : Mon) (w : World) (l : Label) (w' : World) : Mon × List Vio :=
         -- fires on a history followed after the correspondence has broken)
         (match (insts w).find? (fun i => (w.inst i).bus == b && (w.inst i).ev == e && (w.inst i).exec == p && (w.inst i).st != .finished) with
          | some i => v "C17" "lineBeforeHandlersFinished" [] s!"bus {b} event {e}: the WAL line is written while handler instance {i} of the event on that bus has not finished"
-         | none => []))
+         | none =>
+           (match w.act p with
+            | some A => if A.bus == b && A.ev == e && !A.todo.isEmpty then
+                v "C17" "lineBeforeHandlersFinished" [] s!"bus {b} event {e}: the WAL line is written while handlers {A.todo} selected for the event on that bus have not even started"
+              else []
+            | none => [])))
   -- the client registers / removes a handler while an expect() call is pending on that bus: the registry that call has to
   -- leave behind changes accordingly
   | .on b key k kind =>
@@ -752,6 +757,12 @@ def Mon.rest (m : Mon) (w : World) : List Vio :=
          begunSel.all fun k => match (w.ev e).getRes? b k with | some x => x.terminal | none => false
        else C01.noSkip w b e
      if !ok && !stopRelated bs then v "C01" "skipped" (hs ++ bs) s!"bus {b} event {e}" else []) ++
+    -- C14: an accepted event that is no longer in the queue of the bus has been processed there (an activation began for every
+    -- accepted dispatch) - unless the recursion guard (F2) or a stopped / cancelled run loop accounts for it
+    (if m.begun.count (b, e) < m.accepted.count (b, e) && !(w.bus b).queue.contains e && !m.tripped.contains (b, e) &&
+        !stopRelated bs && !m.dropped.contains (b, e) then
+       v "C14" "takenNeverProcessed" (hs ++ bs) s!"bus {b} accepted event {e} and took it from its queue, but never processed it (activations begun {m.begun.count (b, e)}, accepted dispatches {m.accepted.count (b, e)})"
+     else []) ++
     (if treeDone w e && !(w.ev e).signal then v "C03" "doneNotSignalled" hs s!"event {e}" else []) ++
     (if m.everTimeout && !((w.ev e).status == .completed && (w.ev e).signal) then
        v "C10" "notCompletedAfterTimeout" hs s!"event {e}" else []) ++
